@@ -187,6 +187,7 @@ public:
     blocks.reset();
     cursor = nullptr;
     block_count = 0u;
+    empty_block_count = 0u;
     total_area_size[0] = 0u;
     total_area_size[1] = 0u;
     total_area_used[0] = 0u;
@@ -834,6 +835,7 @@ void JitAllocator::reset(ResetPolicy reset_policy) noexcept {
 
   JitAllocatorPrivateImpl* impl = static_cast<JitAllocatorPrivateImpl*>(_impl);
   impl->tree.reset();
+  impl->allocation_count = 0;
   size_t pool_count = impl->pool_count;
 
   for (size_t pool_id = 0; pool_id < pool_count; pool_id++) {
